@@ -141,6 +141,24 @@ def main(ck, tier, w):
             ck.violation('%s %s output with RAYON_NUM_THREADS=%s jitter=%s differs from the run with %s threads' % (j[4], cb, j[1], j[3], ref_obs[key][1][1]),
                          {'run': j, 'baseline_run': ref_obs[key][1], 'observed': r.brief(), 'tags': []})
 
+    # ---- the averaging routine on long lists (a chain of 100 000+ blocks), bit for bit: the same double for every pool size and
+    # every repetition, and the correctly rounded quotient of the exact sum
+    rm = random.Random('%d-c13-mean' % seed)
+    lists = [[rm.randrange(2 ** 32) for _ in range(n)] for n in ((98305, 131073) if quick else (98305, 131073, 262145, 300001))]
+    lists += [[450] * 49152 + [451] * 49153, [7] * 100001 + [8] * 100000]          # means on decimal ties
+    lines = [' '.join(map(str, x)) for x in lists]
+    want = [repr(sum(x) / len(x)) for x in lists]
+    for th in (1, 2, 3, 16, 64):
+        for rep in range(1 if quick else 3):
+            rc, outs, err = run.run_driver('get-mean', lines, env={'RAYON_NUM_THREADS': str(th)})
+            for k, (o, wv) in enumerate(zip(outs, want)):
+                ck.evals()
+                got = repr(float(o['bits'])) if isinstance(o, dict) and 'bits' in o else str(o)
+                if got != wv:
+                    ck.violation('mean of %d values with %d threads: %s, the correctly rounded exact mean is %s' % (len(lists[k]), th, got, wv),
+                                 {'threads': th, 'values': len(lists[k]), 'observed': got, 'tags': []})
+    ck.distinct(('mean-bits', len(lists)))
+
     # ---- T: evaluation orders really observed, validated against Par.tla ---------------------------
     NTX, NOUT = 12, 5
     txs = [{'ver': 1, 'ins': [{'txid': b'\0' * 32 if i == 1 else bytes([i]) * 32, 'idx': 0xffffffff if i == 1 else 0, 'sig': b'\x01\x01', 'seq': 0xffffffff}],
